@@ -514,7 +514,54 @@ type soNamedFloat struct {
 	G float64       `json:"g,string,omitempty"`
 }
 
+// kinds with their own unmarshaling methods: the content of the string reaches the method as it is
+type soMFloat float64
+
+func (f *soMFloat) UnmarshalJSON(b []byte) error { *f = soMFloat(len(b)) + 0.25; return nil }
+
+type soMInt int
+
+func (i *soMInt) UnmarshalJSON(b []byte) error {
+	if len(b) > 0 && b[0] == 'x' {
+		return fmt.Errorf("soMInt: refused")
+	}
+	*i = soMInt(len(b))*100 + soMInt(b[0])
+	return nil
+}
+
+type soMStr string
+
+func (s *soMStr) UnmarshalJSON(b []byte) error { *s = soMStr("got:" + string(b)); return nil }
+
+type soTFloat float64
+
+func (f *soTFloat) UnmarshalText(b []byte) error { *f = soTFloat(len(b)); return nil }
+
+type soTBool bool
+
+func (f *soTBool) UnmarshalText(b []byte) error { *f = len(b)%2 == 1; return nil }
+
+type soUMFloat struct {
+	F soMFloat `json:",string"`
+}
+type soUMInt struct {
+	F soMInt `json:",string"`
+}
+type soUMStr struct {
+	F soMStr `json:",string"`
+}
+type soUTFloat struct {
+	F soTFloat `json:",string"`
+}
+type soUTBool struct {
+	F soTBool `json:",string"`
+}
+type soUMPInt struct {
+	F *soMInt `json:",string"`
+}
+
 var soTypes = []reflect.Type{
+	jgen.T[soUMFloat](), jgen.T[soUMInt](), jgen.T[soUMStr](), jgen.T[soUTFloat](), jgen.T[soUTBool](), jgen.T[soUMPInt](),
 	jgen.T[soFloat64](), jgen.T[soFloat32](), jgen.T[soInt](), jgen.T[soInt8](), jgen.T[soUint16](), jgen.T[soUint64](), jgen.T[soBool](), jgen.T[soString](),
 	jgen.T[soPFloat64](), jgen.T[soPInt](), jgen.T[soPBool](), jgen.T[soPString](), jgen.T[soNumber](), jgen.T[soAny](), jgen.T[soPPFloat](), jgen.T[soNamedFloat](),
 }
@@ -641,7 +688,7 @@ func Spec() *explore.Spec {
 			{Name: "mutated", ShardDepth: 1, Body: mutated, Doc: "leaf / hand-written / map / first-level wrapper types x valid documents x every truncation, deletion, substitution and insertion over a 16-byte class alphabet"},
 			{Name: "token-seqs", ShardDepth: 2, Body: tokenSeqs, Doc: "all token sequences up to 4 (5 thorough) over 18 tokens x 25 target types"},
 			{Name: "histories", ShardDepth: 2, Body: histories, Doc: "every sequence of up to 3 documents (10 documents: arrays that grow, shrink to [], null, objects) decoded one after the other into the same variable of 12 slice / array / map / pointer / interface shapes"},
-			{Name: "string-option", ShardDepth: 2, Body: stringOption, Doc: "struct fields tagged ',string' of 16 kinds (floats, signed/unsigned integers, bool, string, pointers to them, Number, any) x every content string built from <= 3 (thorough 4) of 20 tokens (digits, signs, dot, exponent and hex letters, underscore, white space, true/false/null, escaped quotes, Inf, NaN, escapes) - quoted and bare - x {zero, pre-set} target"},
+			{Name: "string-option", ShardDepth: 2, Body: stringOption, Doc: "struct fields tagged ',string' of 22 kinds (floats, signed/unsigned integers, bool, string, pointers to them, Number, any, and float / int / string / bool kinds with their own UnmarshalJSON or UnmarshalText) x every content string built from <= 3 (thorough 4) of 20 tokens (digits, signs, dot, exponent and hex letters, underscore, white space, true/false/null, escaped quotes, Inf, NaN, escapes) - quoted and bare - x {zero, pre-set} target"},
 			{Name: "self-reference", ShardDepth: 2, FatalPerCase: true, Body: selfReference, Doc: "targets whose interface value (any, named empty interface, struct field, slice / array element) holds a pointer to itself, plus a non-cyclic control, x 17 documents x 6 entry points: same result as encoding/json, which decodes into such an interface as if it was empty (a decoder that follows the pointer never returns)"},
 			{Name: "unescape", Body: unescape, Doc: "Unescape / AppendUnescape on every string literal of the table"},
 		},
